@@ -81,7 +81,7 @@ pub fn enc_ctl(args: &[&str]) -> String {
         Some("CP") if args.len() == 5 => {
             let (sid, uid, nf) = (args[1].parse().ok(), args[2].parse().ok(), args[3].parse().ok());
             match (sid, uid, nf, parse_updates(args[4])) {
-                (Some(sid), Some(uid), Some(nf), Some(fields)) => serialize::serialize(&changeprog::Msg {
+                (Some(sid), Some(uid), Some(nf), Some(fields)) => crate::wire::ser(&changeprog::Msg {
                     sid,
                     program_uid: uid,
                     num_fields: nf,
@@ -93,7 +93,7 @@ pub fn enc_ctl(args: &[&str]) -> String {
         Some("UF") if args.len() == 4 => {
             let (sid, nf) = (args[1].parse().ok(), args[2].parse::<u8>().ok());
             match (sid, nf, parse_updates(args[3])) {
-                (Some(sid), Some(nf), Some(fields)) => serialize::serialize(&update_field::Msg {
+                (Some(sid), Some(nf), Some(fields)) => crate::wire::ser(&update_field::Msg {
                     sid,
                     num_fields: nf,
                     fields,
@@ -104,7 +104,7 @@ pub fn enc_ctl(args: &[&str]) -> String {
         Some("IN") if args.len() == 7 => {
             let v: Option<Vec<u32>> = args[1..5].iter().map(|s| s.parse().ok()).collect();
             match (v, build_bin(args[5], args[6])) {
-                (Some(v), Some(bin)) => serialize::serialize(&install::Msg {
+                (Some(v), Some(bin)) => crate::wire::ser(&install::Msg {
                     sid: v[0],
                     program_uid: v[1],
                     num_events: v[2],
